@@ -11,9 +11,10 @@ from engine.vsym import build, drivers
 class CppFilter:
     """Generated C++ of one corpus program (EKF or plain Model), compiled with double -> Sym; concrete twin lazily."""
 
-    def __init__(self, p, *, ekf=True, cse=True, k=5.0, max_dt=0.1, container="list", reverse=False, noise=None, extra_body=None, extra_includes=()):
+    def __init__(self, p, *, ekf=True, cse=True, k=5.0, max_dt=0.1, container="list", reverse=False, noise=None, extra_body=None, extra_includes=(), cal_container="set"):
         self.p, self.ekf, self.cse, self.k, self.max_dt = p, ekf, cse, k, max_dt
         self.container, self.reverse, self.noise = container, reverse, noise
+        self.cal_container = cal_container
         self.dir = None
         self.exe = None
         self.exe_c = None
@@ -29,7 +30,7 @@ class CppFilter:
         try:
             buf = io.StringIO()
             with contextlib.redirect_stdout(buf):
-                h, s = build.generate(self.p, self.dir, ekf=self.ekf, cse=self.cse, k=self.k, max_dt=self.max_dt, container=self.container, reverse=self.reverse, noise=self.noise)
+                h, s = build.generate(self.p, self.dir, ekf=self.ekf, cse=self.cse, k=self.k, max_dt=self.max_dt, container=self.container, reverse=self.reverse, noise=self.noise, cal_container=self.cal_container)
             self.header_text = open(h).read()
             self.source_text = open(s).read()
             self.includes = ["#include <formak/gen.h>", '#include "gen.cpp"'] + self.extra_includes
